@@ -1992,6 +1992,13 @@ class IMAPClientCommand:
         if ":" in flag:
             raise BadSyntax(value=f"flag '{flag}' may not contain a ':'")
 
+        # ... and the MH library writes that file as ASCII. An atom has no
+        # 8-bit characters in it anyway (ATOM-CHAR is a subset of CHAR,
+        # %x01-7F) but our pattern for one lets them through.
+        #
+        if not flag.isascii():
+            raise BadSyntax(value="a flag may not contain 8-bit characters")
+
         # The names of the system flags are case-insensitive: `\seen` and
         # `\SEEN` are `\Seen`. The rest of the server knows them in one
         # spelling only.
